@@ -174,8 +174,9 @@ PROPS['C18'] = dict(
 
 PROPS['C12'] = dict(
     level='other',
-    claim='client-side binding for the round-robin scheduler: _assign_pilot (bound to exactly that pilot, recorded once), _update_pilot_states, control_cb (roles on add / remove, early-bound tasks forwarded when their pilot is added and not kept for a second forwarding), work (named tasks go to the named pilot or wait for it), RoundRobin.add_pilots / remove_pilots / _work / _schedule_tasks (tasks wait while no pilot is eligible, every unnamed task is bound to a currently added pilot and forwarded exactly once, consecutive round-robin order) are verified for every history step; forwarding is a ghost event log',
-    note='the load-balance corollary (consecutive cyclic assignment => loads differ by at most one) is checked by the bounded native histories only; the Backfilling scheduler is not yet under contract',
+    claim='client-side binding for the round-robin scheduler: _assign_pilot (bound to exactly that pilot, recorded once), _update_pilot_states, control_cb (roles on add / remove, early-bound tasks forwarded when their pilot is added and not kept for a second forwarding), work (named tasks go to the named pilot or wait for it), RoundRobin.add_pilots / remove_pilots / _work / _schedule_tasks (tasks wait while no pilot is eligible, every unnamed task is bound to a currently added pilot and forwarded exactly once, consecutive round-robin order); Backfilling._schedule_tasks (at the binding site the pilot is listed, ADDED, in an eligible state and below its high-water mark; every waiting task stays waiting unchanged or is forwarded exactly once), update_tasks (usage given back once per finished task and only for a task of that pilot), add_pilots (a re-added pilot keeps its books), remove_pilots, _work: verified for every history step; forwarding is a ghost event log',
+    note='the load-balance corollary (consecutive cyclic assignment => loads differ by at most one) and "the usage figure returns to zero when all tasks of a pilot have finished" (the sum over a history: + cores at each binding, - the same cores once per finished task, both proved per step) are checked by bounded native histories only; Backfilling.update_pilots not under contract',
+    bounded=[dict(name='bf-histories', cmd=['harness/run_bounded.py', 'bf-histories'], timeout=900)],
     assumptions=['A2', 'A4', 'A5', 'A7', 'A9', 'A10', 'A11'],
     trusted_base=['Session._get_*_sandbox, ru.Url (sandbox derivation): arbitrary values'],
     explanation='operation-granularity contracts with a ghost forwarding log; data-structure invariant rr_inv (listed pilots are ADDED and bound)',
@@ -184,7 +185,8 @@ PROPS['C12'] = dict(
              'forwarded exactly once (incl. remove + re-add)': 'P',
              'wait while no eligible pilot': 'P',
              'round robin loads differ by at most one': 'B (consecutive order P, corollary by native histories)',
-             'backfilling eligibility / HWM / usage': 'not yet built'})
+             'backfilling: only eligible pilots below their high-water mark': 'P (obligation at the binding site)',
+             'backfilling: usage returns to zero': 'P per step (added once, given back once) + B (histories)'})
 
 _OP = ('operation granularity: each critical section / handler is one atomic operation (A7, CPython GIL for the single shared accesses outside the lock); '
        'the interleaving argument is the token discipline: a finish needs the token, the token is obtained only by deleting the uid from _tasks under _check_lock after finding it there, an atomic test-and-delete that at most one thread can win')
